@@ -68,6 +68,9 @@ def cases(tier, seed):
                     r = mk("t/rec", fields, 0, "src")
                     r["values"][dts[0]] = "None"
                     yield {"kind": "ts", "rec": r, "none": dts[0]}
+    for v1, v2 in itertools.product(["dt(1601,1,1,0,0,0,1,tz=UTC)", "dt(9999,12,31,23,59,59,999999,tz=UTC)", "dt(2500,6,1,1,2,3,123457,tz=off(5,30))", "dt(1,1,1,0,0,0,7,tz=UTC)",
+                                     "dt(1969,12,31,23,59,59,999999,tz=off(1,2,3))", "dt(2020,10,25,2,30,0,5,tz=Z('Europe/Amsterdam'),fold=1)"], repeat=2):
+        yield {"kind": "ts", "rec": rs("t/far", [["datetime", "d1"], ["string", "a"], ["datetime", "d2"]], [v1, "'x'", v2], _source="'far'"), "none": None}
     # (3) grouped records
     G = {
         "P": [["string", "a"], ["varint", "n"]],
@@ -97,6 +100,9 @@ def cases(tier, seed):
             if len(fl) == 3 and len(ex) == 2 and not thorough:
                 continue
             yield {"kind": "rewrite", "fields": fl, "exclude": ex}
+    for fl in ([], ["Path"], ["PID"], ["pid"], ["pid", "PID"], ["PID", "Path", "pid"], ["path"], [" pid"]):
+        for ex in ([], ["PID"], ["pid"], ["Path"], ["path"]):
+            yield {"kind": "rewrite", "fields": fl, "exclude": ex, "mixedcase": True}
     for expr in REWRITE_EXPRS:
         for k in (1, 2, 3):
             for seq in itertools.product(["D", "D1", "D2", "E", "D3", "D4"], repeat=k):
@@ -470,6 +476,10 @@ def run_rewrite(case):
     D2 = rs("w/rec", [["string", "a"], ["string", "owner"], ["varint", "mode"]], ["'aa'", "'root'", "420"], _source="'src2'")
     rw = RecordFieldRewriter(list(fl), list(ex))
     outs = []
+    if case.get("mixedcase"):
+        D = rs("w/rec", [["string", "Path"], ["varint", "PID"], ["varint", "pid"]], ["'/P'", "1", "2"], _source="'src'")
+        D1 = rs("w/rec", [["varint", "pid"], ["string", "Path"]], ["3", "'/Q'"], _source="'src1'")
+        D2 = rs("w/rec", [["string", "path"], ["varint", "PID"]], ["'/lower'", "4"], _source="'src2'")
     GA = {"group": "w/grp", "members": [rs("w/p", [["string", "a"], ["varint", "n"]], ["'ga'", "1"]), rs("w/q", [["datetime", "t"]], ["dt(2020,1,1,tz=UTC)"])]}
     GB = {"group": "w/grp", "members": [rs("w/r", [["string", "owner"]], ["'gb'"]), rs("w/s", [["string", "a"], ["varint", "mode"]], ["'x'", "7"])]}
     # members that share field names: the flat view (and so the rewritten record) takes the FIRST member's value and metadata
